@@ -517,19 +517,21 @@ impl ScionPath {
                     })
                     .collect();
 
+                // Entry i of latency / bandwidth describes the link between interface i and
+                // i+1: N-1 entries for N interfaces.
+                let links = if_meta.len().saturating_sub(1);
                 rpc_path.latency = if_meta
                     .iter()
+                    .take(links)
                     .map(|latency| {
                         match latency.latency {
                             Some(latency) => {
                                 prost_types::Duration {
-                                    // XXX(ake): I hope most links won't have multiple hundered
-                                    // years of latency.
                                     seconds: latency.as_secs().try_into().unwrap_or(i64::MAX),
                                     nanos: latency.subsec_nanos().try_into().unwrap_or(i32::MAX),
                                 }
                             }
-                            // XXX(ake): a negative value indicates that no latency is supplied
+                            // a negative value indicates that no latency is supplied
                             None => {
                                 prost_types::Duration {
                                     seconds: -1,
@@ -542,6 +544,7 @@ impl ScionPath {
 
                 rpc_path.bandwidth = if_meta
                     .iter()
+                    .take(links)
                     .map(|meta| meta.bandwidth.unwrap_or(0))
                     .collect();
 
@@ -555,15 +558,48 @@ impl ScionPath {
                     })
                     .collect();
 
-                rpc_path.link_type = if_meta
+                // Entry i of link_type describes the inter-AS link between interfaces 2i and
+                // 2i+1: N/2 entries, taken from the egress (even) interfaces.
+                if if_meta
                     .iter()
-                    .map(|meta| {
-                        match &meta.link {
-                            Some(LinkMeta::Egress(link_type)) => link_type.to_i32(),
-                            _ => LinkType::Unset.to_i32(),
-                        }
-                    })
-                    .collect();
+                    .step_by(2)
+                    .any(|meta| matches!(meta.link, Some(LinkMeta::Egress(_))))
+                {
+                    rpc_path.link_type = if_meta
+                        .iter()
+                        .step_by(2)
+                        .map(|meta| {
+                            match &meta.link {
+                                Some(LinkMeta::Egress(link_type)) => link_type.to_i32(),
+                                _ => LinkType::Unset.to_i32(),
+                            }
+                        })
+                        .collect();
+                }
+
+                // Entry i of internal_hops describes the hop between interfaces 2i+1 and 2i+2:
+                // N/2-1 entries, taken from the ingress (odd) interfaces except the last one.
+                let traversed = (if_meta.len() / 2).saturating_sub(1);
+                if if_meta
+                    .iter()
+                    .skip(1)
+                    .step_by(2)
+                    .take(traversed)
+                    .any(|meta| matches!(meta.link, Some(LinkMeta::Ingress { .. })))
+                {
+                    rpc_path.internal_hops = if_meta
+                        .iter()
+                        .skip(1)
+                        .step_by(2)
+                        .take(traversed)
+                        .map(|meta| {
+                            match meta.link {
+                                Some(LinkMeta::Ingress { internal_hop_count }) => internal_hop_count,
+                                _ => 0,
+                            }
+                        })
+                        .collect();
+                }
 
                 // collect notes if available, must be one per AS (total_interfaces / 2 + 1)
                 let expected_count_ases = if_meta.len() / 2 + 1;
